@@ -2,7 +2,7 @@ SPECIFICATION Spec
 VIEW View
 CONSTANTS D = 3
   MaxPages = 4
-  MaxWriters = 4
+  MaxWriters = 3
   MaxCbs = 3
   MVals = {"-"}
   CVals = {"-"}
